@@ -501,6 +501,22 @@ func firstWord(s string) string {
 
 // ---------------------------------------------------------------- quiescence
 
+var inconclusiveCases int64
+
+// markInconclusive counts a case that ended without a verdict (timing limits of the rig, never a violation).
+func markInconclusive(part string) {
+	atomic.AddInt64(&inconclusiveCases, 1)
+	ev.Class(part, "inconclusive")
+}
+
+// tooManyInconclusive fails the test (as infrastructure, not as an oracle verdict) when more than a fifth
+// of the cases of this process had no verdict.
+func tooManyInconclusive(t *testing.T, total int) {
+	if n := atomic.LoadInt64(&inconclusiveCases); total >= 10 && n*5 > int64(total) {
+		t.Fatalf("too many inconclusive cases: %d of %d (machine too loaded for the rig)", n, total)
+	}
+}
+
 type expectFn func(o obs) (ok bool, sig, why string)
 
 // conserved is the idle expectation: all breaker resources and request gauges zero, connection gauges
@@ -570,13 +586,16 @@ const (
 // timer inside MOSN — retry back-off 10 ms, timeouts <= 150 ms, connection wait 535 ms — is far
 // shorter), i.e. after hundreds of scheduler rounds in which the proxy had nothing left to do.
 // inconclusive: the state kept changing until quiesceLimit.
-func (r *rig) quiesce(want expectFn) (o obs, ok bool, sig, why string, inconclusive bool) {
+func (r *rig) quiesce(want expectFn, desc func() string) (o obs, ok bool, sig, why string, inconclusive bool) {
 	start := time.Now()
 	var last obs
 	equal := 0
 	lastChange := start
 	for {
 		o = r.observe()
+		if o.Retr < 0 && atomic.LoadInt32(&r.retrKnown) == 0 {
+			r.checkNegatives(desc) // a negative counter needs no waiting: verdict (or listed finding) at once
+		}
 		if o == last {
 			equal++
 		} else {
@@ -601,9 +620,9 @@ func (r *rig) quiesce(want expectFn) (o obs, ok bool, sig, why string, inconclus
 // settle runs quiesce and turns the result into a verdict. It returns false if the case has to be
 // abandoned as inconclusive.
 func (r *rig) settle(phase string, want expectFn, desc func() string) bool {
-	o, ok, sig, why, inc := r.quiesce(want)
+	o, ok, sig, why, inc := r.quiesce(want, desc)
 	if inc {
-		ev.Class(r.part, "inconclusive")
+		markInconclusive(r.part)
 		return false
 	}
 	r.checkNegatives(desc)
@@ -665,4 +684,87 @@ func (r *rig) requestLeakCause(sig string, o obs) string {
 		return sigRetryTimeout
 	}
 	return ""
+}
+
+// ---------------------------------------------------------------- clients
+
+type outcome struct {
+	Status int  // HTTP status / bolt response status; -1 none
+	Got    bool // a response arrived
+	Closed bool // connection ended without one
+}
+
+// h1Once sends one request on c and reads the response.
+func h1Once(c *mesh.H1Client, rp *ReqPlan, wait time.Duration) outcome {
+	var body []byte
+	method := "GET"
+	if rp.BodyLen > 0 {
+		method = "POST"
+		body = make([]byte, rp.BodyLen)
+		for i := range body {
+			body[i] = 'a' + byte(i%26)
+		}
+	}
+	hdr := [][2]string{{mesh.TokenHeader, rp.Tok}}
+	if rp.TimeoutMs > 0 {
+		hdr = append(hdr, [2]string{types.HeaderGlobalTimeout, fmt.Sprint(rp.TimeoutMs)})
+	}
+	if rp.TryMs > 0 {
+		hdr = append(hdr, [2]string{types.HeaderTryTimeout, fmt.Sprint(rp.TryMs)})
+	}
+	if err := c.Send(mesh.RawRequest(method, "/c10/"+rp.Tok, "c10.test", hdr, body, false)); err != nil {
+		return outcome{Status: -1, Closed: true}
+	}
+	resp, err := c.Read(method, wait)
+	if err != nil {
+		return outcome{Status: -1, Closed: true}
+	}
+	return outcome{Status: resp.Status, Got: true}
+}
+
+func closeConn(c net.Conn, rst bool) {
+	if tc, ok := c.(*net.TCPConn); ok && rst {
+		_ = tc.SetLinger(0)
+	}
+	_ = c.Close()
+}
+
+// boltReq builds the bolt request frame of a plan.
+func boltReq(id uint32, rp *ReqPlan) []byte {
+	b := make([]byte, rp.BodyLen)
+	for i := range b {
+		b[i] = 'a' + byte(i%26)
+	}
+	if rp.Oneway {
+		return mesh.XOneway("bolt", id, rp.Tok, b)
+	}
+	var extra []codec.KV
+	if rp.TryMs > 0 {
+		extra = append(extra, codec.KV{K: []byte(types.HeaderTryTimeout), V: []byte(fmt.Sprint(rp.TryMs))})
+	}
+	return mesh.XRequest("bolt", id, rp.Tok, b, uint32(rp.TimeoutMs), extra...)
+}
+
+func boltStatus(frame []byte) int {
+	x, err := mesh.ParseX(frame)
+	if err != nil || !x.Response {
+		return -1
+	}
+	return int(x.Status)
+}
+
+const clientWait = 30 * time.Second // generous: a miss is inconclusive, never a verdict
+
+func overflowStatus(proto string) int {
+	if proto == "Http1" {
+		return api.UpstreamOverFlowCode
+	}
+	return 4 // bolt ResponseStatusServerThreadpoolBusy
+}
+
+func okStatus(proto string) int {
+	if proto == "Http1" {
+		return 200
+	}
+	return 0
 }
